@@ -575,7 +575,7 @@ func runC14(rc *fw.RunCtx) {
 		}
 	}
 	s.Until = func() bool {
-		return out.Done && (out2 == nil || out2.Done) && len(aliveExcept(s, "vm.watcher")) == 0
+		return out.Done && (out2 == nil || out2.Done) && len(aliveExcept(s, "vm.watcher", "file.watcher")) == 0
 	}
 	verdict := s.Run()
 	s.Shutdown(cancel)
